@@ -105,7 +105,11 @@ func (c *Ctx) term(st *State, fr *Frame, v ssa.Value) Term {
 		return c.funcRef(t.Fn)
 	case *Addr:
 		// pointer used as first-class value: give it an opaque identity
-		return c.addrIdentity(t)
+		id := c.addrIdentity(t)
+		if t.Elem != nil {
+			id.GoT = types.NewPointer(t.Elem)
+		}
+		return id
 	}
 	unsupp("value %s is not a term (%T)", v.Name(), r)
 	return Term{}
